@@ -175,7 +175,7 @@ StepDeTokens ==
 
 StepClone ==
   /\ ~TaintedEv
-  /\ e.op = "clone"
+  /\ e.op \in {"clone", "clone_from"}
   /\ LET tags == (IF e.panic = 1 THEN {"panic"} ELSE {})
                  \cup (IF e.panic = 0 /\ e.hs = 1 THEN SnapFails(e.snap, e.kind, abs[e.src], ord[e.src], Empty) ELSE {})
                  \cup (IF e.panic = 0 /\ e.hs = 1 /\ ~NoDrift /\ SnapCon(e.snap) # con[e.src] THEN {"clone_layout"} ELSE {})
@@ -247,7 +247,7 @@ StepBalance ==
 
 StepOp ==
   /\ ~TaintedEv
-  /\ e.op \notin {"reset", "new", "from_vec", "from_iter", "de", "roundtrip", "de_tokens", "clone", "drop", "forget_queue",
+  /\ e.op \notin {"reset", "new", "from_vec", "from_iter", "de", "roundtrip", "de_tokens", "clone", "clone_from", "drop", "forget_queue",
                   "eq", "ne", "append", "iter_calls", "into_calls", "balance"}
   /\ LET q == e.q
          a == abs[q]
